@@ -494,4 +494,7 @@ func init() {
 	runners["VALID"] = runReplayHistory(true, false, false)
 	runners["VALIDS"] = runReplayHistory(true, true, false)
 	runners["VALIDF"] = runReplayHistory(true, true, true)
+	// the same histories for the translated replayers (Driver/GenReplayD.lean)
+	runners["GFINITE"] = runReplayHistory(false, false, false)
+	runners["GVALID"] = runReplayHistory(true, false, false)
 }
